@@ -152,6 +152,7 @@ def _worker(a):
     viol = []
     d = daemon.Daemon(b, conf, leaks=False, hooks=False, keep=True)
     out_lines = []
+    fatal_expected = False
     try:
         chunks = [lines]
         if reloads:
@@ -164,8 +165,28 @@ def _worker(a):
                 break
             if ci + 1 < len(chunks):
                 time.sleep(0.05)
-                kind = rng.choice(["broken", "typed", "same", "logs-change", "missing"])
-                if kind == "broken":
+                if ci == 0:
+                    # the signal handlers are installed after the modules are up; a daemon that has answered input has them
+                    # (no hook on this channel: the answer itself is the evidence; bounded wait, lateness is harmless)
+                    import select as _select
+                    t_end = time.time() + 8.0
+                    while time.time() < t_end:
+                        pos = d.buf.find(b"\nO ")
+                        if pos >= 0 and d.buf.count(b"\n", pos + 1) >= 2:
+                            break
+                        r_, _, _ = _select.select([d.ofd], [], [], 0.2)
+                        if r_:
+                            c_ = os.read(d.ofd, 65536)
+                            if not c_:
+                                break
+                            d.buf += c_
+                kind = rng.choice(["broken", "typed", "same", "logs-change", "missing", "logs-unopenable"])
+                if kind == "logs-unopenable":
+                    # a log destination that cannot be opened is a fatal error (by design the daemon gives up with status 1);
+                    # whatever it has to say about that belongs in its logs, not on the server channel
+                    newc = cfg.text(b["moddir"]) + 'logs {\n "*.*" "file:/nonexistent-directory/x/all.log";\n};\n'
+                    fatal_expected = True
+                elif kind == "broken":
                     newc = conf + "\niauth { timeout \n"
                 elif kind == "typed":
                     newc = conf.replace("timeout 3600", "timeout 12parsecs") if "timeout 3600" in conf else conf + "\niauth { timeout pizza; };\n"
@@ -193,7 +214,9 @@ def _worker(a):
     finally:
         import shutil
         shutil.rmtree(d.dir, ignore_errors=True)
-    if not r.clean():
+    if fatal_expected and r.exit == 1 and not r.sanitizer and not r.hang:
+        stats["runs_ended_by_a_fatal_configuration_error"] = 1
+    elif not r.clean():
         return {"viol": [], "stats": stats, "inconc": ["daemon unclean (%s); see C08" % (r.describe(),)], "hash": vcommon.h([seed, li]), "nontrivial": False}
     # texts the services sent: a relayed challenge / retry / refusal text must be (a cut of) one of them - anything else on
     # such a line (e.g. the next message glued to an unterminated one) is not "a single valid message"
